@@ -7,9 +7,21 @@ def one_case(ctx, case):
     seed = ctx["seed"]
     rng = random.Random(seed * 100003 + case)
     rules = realfs.random_graph(rng, 6)
-    ws = realfs.Workspace("c10-%d-%d" % (seed, case), ctx["plain"])
     recs = []
     stats = {"evaluations": 0, "nontrivial": 0, "keys": [], "sample": None, "problems": []}
+    ws = realfs.Workspace("c10-%s%d-%d" % ("vg-" if ctx.get("wrapper") else "", seed, case), ctx["plain"])
+    wrapper = ctx.get("wrapper")
+    if wrapper:
+        plain_run = ws.run
+        def wrapped(*args, **kw):
+            r = plain_run(*args, wrapper=wrapper, timeout=600)
+            if r["rc"] == 99:
+                stats["memcheck_errors"] = stats.get("memcheck_errors", 0) + 1
+                stats["memcheck_report"] = r["err"][-1500:]
+                r["err"] = ""
+            stats["memcheck_runs"] = stats.get("memcheck_runs", 0) + 1
+            return r
+        ws.run = wrapped
     def bad(sig, what, extra=None):
         d = {"rules_file": "\n".join(r.text() for r in rules), "steps": steps}
         d.update(extra or {})
@@ -84,7 +96,11 @@ def one_case(ctx, case):
 
 def run(ctx):
     n = ctx["stage"]["cases"][ctx["tier"]]
+    if ctx["stage"].get("wrapper"):
+        ctx = dict(ctx, wrapper=ctx["stage"]["wrapper"])
     t0 = time.time()
+    mem_runs = mem_errors = 0
+    mem_report = None
     recs, problems, keys, samples = [], [], [], []
     ev = nt = 0
     with ThreadPoolExecutor(max_workers=ctx["nproc"]) as pool:
@@ -92,10 +108,20 @@ def run(ctx):
             recs += r
             problems += st["problems"]
             ev += st["evaluations"]; nt += st["nontrivial"]; keys += st["keys"]
+            mem_runs += st.get("memcheck_runs", 0); mem_errors += st.get("memcheck_errors", 0)
+            mem_report = mem_report or st.get("memcheck_report")
             if st["sample"] and len(samples) < 2:
                 samples.append(st["sample"])
+    counts = {"real_fs_clean_build_pairs": ev}
+    if ctx.get("wrapper"):
+        # supplementary, informational: valgrind memcheck on the real binary; none of the 20 properties is a memory-safety
+        # property, so a report is recorded in the evidence and printed, not turned into a verdict
+        counts = {"memcheck_real_binary_runs": mem_runs, "memcheck_runs_with_error_reports": mem_errors, "memcheck_clean_build_pairs": ev}
+        if mem_report:
+            print("NOTE: valgrind memcheck reported errors on the real binary (informational):", mem_report[-600:], flush=True)
+        keys = ["vg:" + k for k in keys]
     recs.append({"type": "summary", "driver": "clean_real", "prop": "C10", "shard": 0, "cases_run": n, "evaluations": ev, "nontrivial": nt,
-                 "keys": keys, "counts": {"real_fs_clean_build_pairs": ev}, "samples": samples,
+                 "keys": keys, "counts": counts, "samples": samples,
                  "violations": sum(1 for x in recs if x["type"] == "violation"), "stopped_by_time_cap": False, "wall_ms": int((time.time() - t0) * 1000)})
     if len(problems) > max(2, n // 10):
         return recs, problems[:3]
